@@ -51,7 +51,11 @@ Inductive expr :=
 | EConst (v : value)
 | EProj (p key : string)                  (* projection [key] of argument [p] *)
 | EProjDef (p key : string) (d : value)   (* the same, [d] when the argument is None *)
-| ECond (p key : string) (c1 c2 : value). (* c1 if <projection is true> else c2 *)
+| ECond (p key : string) (c1 c2 : value)  (* c1 if <projection is true> else c2 *)
+| EConv (op p key : string) (d : option value).
+    (* conversion done by a helper class of the code (ChannelMap, BDAddress, bytes()) applied to the RAW
+       argument data under [key]; [d] when the argument is None.  The operators have their own
+       semantics below, independent of the helper, and are compared with it on every run. *)
 Inductive fop :=
 | FSet (a : string) (e : expr) (guard : option string)     (* [if guard is not None:] m.a = e   /  kwarg a=e *)
 | FAppend (a : string) (e : expr) (guard : option string). (* [if guard is not None:] for x in e: m.a.append(x) / .add() *)
@@ -442,8 +446,39 @@ Definition hub_parse (S : schema) (v : nat) (d : decoded) : outcome :=
 (** an argument: None, or the projections of the object the factory reads *)
 Definition args := list (string * option (list (string * value))).
 
+(** ** Conversion operators *)
+Fixpoint le_bytes (n : nat) (x : N) : list N :=
+  match n with 0 => [] | S n' => N.modulo x 256 :: le_bytes n' (N.div x 256) end.
+(** channel list -> 5-byte little-endian bitmap, bit i set for channel i (channels 0..37) *)
+Definition chanmap_bytes (l : list sval) : option (list N) :=
+  match fold_right (fun s acc => match s, acc with
+                                 | SInt z, Some m => if Z.leb 0 z && Z.ltb z 38 then Some (N.lor m (N.shiftl 1 (Z.to_N z))) else None
+                                 | _, _ => None
+                                 end) (Some 0%N) l with
+  | Some m => Some (le_bytes 5 m)
+  | None => None
+  end.
+Definition bytes_of_ints (l : list sval) : option (list N) :=
+  fold_right (fun s acc => match s, acc with
+                           | SInt z, Some r => if Z.leb 0 z && Z.ltb z 256 then Some (Z.to_N z :: r) else None
+                           | _, _ => None
+                           end) (Some []) l.
+Definition conv (op : string) (raw : value) : option value :=
+  if String.eqb op "chanmap_bytes" then
+    match raw with VL l => match chanmap_bytes l with Some b => Some (VS (SBytes b)) | None => None end | _ => None end
+  else if String.eqb op "bdaddr_bytes" then   (* AA:BB:CC:DD:EE:FF (display order) -> FF EE DD CC BB AA *)
+    match raw with VS (SBytes l) => if Nat.eqb (List.length l) 6 then Some (VS (SBytes (rev l))) else None | _ => None end
+  else if String.eqb op "bytes_of_ints" then
+    match raw with VL l => match bytes_of_ints l with Some b => Some (VS (SBytes b)) | None => None end | _ => None end
+  else None.
+
 Definition eval (e : expr) (ar : args) : option value :=
   match e with
+  | EConv op p k d => match assoc p ar with
+                      | Some (Some pr) => match assoc k pr with Some raw => conv op raw | None => None end
+                      | Some None => d
+                      | None => None
+                      end
   | EConst v => Some v
   | EProj p k => match assoc p ar with Some (Some pr) => assoc k pr | _ => None end
   | EProjDef p k d => match assoc p ar with
@@ -464,7 +499,7 @@ Definition op_attr (o : fop) : string := match o with FSet a _ _ | FAppend a _ _
 Definition op_expr (o : fop) : expr := match o with FSet _ e _ | FAppend _ e _ => e end.
 Definition op_guard (o : fop) : option string := match o with FSet _ _ g | FAppend _ _ g => g end.
 Definition expr_param (e : expr) : option string :=
-  match e with EConst _ => None | EProj p _ | EProjDef p _ _ | ECond p _ _ _ => Some p end.
+  match e with EConst _ => None | EProj p _ | EProjDef p _ _ | ECond p _ _ _ | EConv _ p _ _ => Some p end.
 
 (** an op runs when its guard parameter was given (is not None) *)
 Definition effective (o : fop) (ar : args) : bool :=
@@ -852,6 +887,15 @@ Definition check_parse (S : schema) (c : nat * decoded * obs) : bool :=
   | DecodeError => obs_eqb (match hub_parse S v DecodeError with
                             | NoMsg => ObsNone | PRaise e => ObsRaise e | Msg c => ObsMsg c [] | OutOfFuel => ObsRaise "OutOfFuel" end) o
   | Decoded m => obs_eqb (obs_of S v m) o
+  end.
+
+(** conversion operator vs the live helper class: operator, raw argument, what the helper returned (None = it raised) *)
+Definition check_conv (c : string * value * option value) : bool :=
+  let '(op, raw, o) := c in
+  match conv op raw, o with
+  | Some a, Some b => value_eqb a b
+  | None, None => true
+  | _, _ => false
   end.
 
 (** boolean form of the round-trip conclusion on one wrapper case (model-side search) *)
